@@ -9,6 +9,7 @@ import (
 	"os"
 	"os/exec"
 	"path/filepath"
+	"strings"
 	"syscall"
 
 	"github.com/Vedant9500/WTF/internal/embedding"
@@ -69,6 +70,25 @@ func f32hex(v []float32) []string {
 }
 
 func c19WVFile(r *rand.Rand) []byte {
+	if r.Intn(10) == 0 {
+		// the header announces one record more than the file holds, but long words make the file big enough to pass any
+		// size check on the count: the missing record would begin at the end of the file (or one byte before it)
+		var b []byte
+		k := 1 + r.Intn(2)
+		b = binary.LittleEndian.AppendUint32(b, uint32(k+1))
+		for i := 0; i < k; i++ {
+			w := strings.Repeat("w", 402+r.Intn(60))
+			b = binary.LittleEndian.AppendUint16(b, uint16(len(w)))
+			b = append(b, w...)
+			for _, x := range c19Vec(r, 100) {
+				b = binary.LittleEndian.AppendUint32(b, math.Float32bits(x))
+			}
+		}
+		if r.Intn(2) == 0 {
+			b = append(b, 3)
+		}
+		return b
+	}
 	var b []byte
 	n := r.Intn(4)
 	put32 := func(x uint32) { b = binary.LittleEndian.AppendUint32(b, x) }
@@ -90,8 +110,13 @@ func c19WVFile(r *rand.Rand) []byte {
 	}
 	put32(count)
 	words := []string{"tar", "zip", "files", "日本", "", "a b", "x"}
+	var starts []int
 	for i := 0; i < n; i++ {
+		starts = append(starts, len(b))
 		w := words[r.Intn(len(words))]
+		if r.Intn(6) == 0 { // a long word: the records after it begin later than count * (2 + 4*dim) suggests
+			w = strings.Repeat("w", 300+r.Intn(200))
+		}
 		wl := uint16(len(w))
 		if r.Intn(10) == 0 {
 			wl = 0xFFFF
@@ -102,7 +127,14 @@ func c19WVFile(r *rand.Rand) []byte {
 			put32(math.Float32bits(x))
 		}
 	}
-	switch r.Intn(6) {
+	switch r.Intn(7) {
+	case 6: // cut exactly where a record begins, or one byte into it (inside its 2-byte length prefix)
+		if len(starts) > 0 {
+			cut := starts[r.Intn(len(starts))] + r.Intn(2)
+			if cut <= len(b) {
+				b = b[:cut]
+			}
+		}
 	case 0: // truncate anywhere
 		if len(b) > 0 {
 			b = b[:r.Intn(len(b)+1)]
